@@ -199,7 +199,7 @@ func (g *c11Gen) yaml() (text string, expectAccept bool) {
 			entry += fmt.Sprintf("    linear:\n      sensor: %s\n", c.sensor)
 			form := "list"
 			if g.hostile {
-				form = pick(r, "list", "map", "empty-list", "empty-map", "null", "singleton")
+				form = pick(r, "list", "map", "empty-list", "empty-map", "null", "singleton", "empty-list-with-range", "empty-map-with-range", "steps-and-range")
 			}
 			switch form {
 			case "list":
@@ -216,6 +216,16 @@ func (g *c11Gen) yaml() (text string, expectAccept bool) {
 				entry += "      steps:\n      min: 40\n      max: 80\n"
 			case "singleton":
 				entry += "      steps:\n        - 55: 128\n"
+			case "empty-list-with-range":
+				// both forms of a linear curve in one entry: whatever fan2go makes of it, if it validates it must run
+				entry += "      steps: []\n      min: 40\n      max: 80\n"
+				g.note("empty-steps-with-range")
+			case "empty-map-with-range":
+				entry += "      min: 40\n      max: 80\n      steps: {}\n"
+				g.note("empty-steps-with-range")
+			case "steps-and-range":
+				entry += "      min: 40\n      max: 80\n      steps:\n        - 45: 10\n        - 70: 200\n"
+				g.note("steps-and-range")
 			}
 		case "pid":
 			p, ii, d := -0.05, -0.005, -0.005
@@ -487,6 +497,64 @@ type c11Outcome struct {
 	rejectErr string
 }
 
+// c11DuplicateIds: a repeated sensor, curve or fan id, after ids in every kind of order (ascending, descending, mixed,
+// the repeat first / last / in the middle). A configuration with a repeated id must not validate: which of the two
+// entries a reference means is undefined, and the registries keep one of them only.
+func c11DuplicateIds(ctx *Ctx) {
+	dir := ctx.Path("c11dup")
+	_ = os.MkdirAll(dir, 0755)
+	defer os.RemoveAll(dir)
+	sf := filepath.Join(dir, "sensor")
+	_ = os.WriteFile(sf, []byte("40000\n"), 0644)
+	seqs := [][]string{{"a", "a"}, {"a", "b", "a"}, {"b", "a", "b"}, {"rear", "front", "bottom", "rear"}, {"c", "a", "b", "a"}, {"z", "y", "x", "z"},
+		{"a", "b", "c", "d", "b"}, {"d", "c", "b", "a", "c"}, {"m", "a", "z", "m", "b"}, {"b", "b", "a"}, {"x1", "x10", "x2", "x10"}, {"B", "a", "C", "a"}}
+	for _, kind := range []string{"sensor", "curve", "fan"} {
+		for _, seq := range seqs {
+			var sb strings.Builder
+			fmt.Fprintf(&sb, "dbPath: %s/fan2go.db\nsensors:\n", dir)
+			sids, cids, fids := []string{"s0"}, []string{"c0"}, []string{"f0"}
+			switch kind {
+			case "sensor":
+				sids = seq
+			case "curve":
+				cids = seq
+			default:
+				fids = seq
+			}
+			for _, id := range sids {
+				fmt.Fprintf(&sb, "  - id: %s\n    file:\n      path: %s\n", id, sf)
+			}
+			sb.WriteString("curves:\n")
+			for i, id := range cids {
+				fmt.Fprintf(&sb, "  - id: %s\n    linear:\n      sensor: %s\n      min: 40\n      max: 80\n", id, sids[i%len(sids)])
+			}
+			sb.WriteString("fans:\n")
+			for i, id := range fids {
+				fmt.Fprintf(&sb, "  - id: %s\n    curve: %s\n    file:\n      path: %s/fan%d\n", id, cids[i%len(cids)], dir, i)
+			}
+			text := sb.String()
+			cfgPath := filepath.Join(dir, "fan2go.yaml")
+			_ = os.WriteFile(cfgPath, []byte(text), 0644)
+			viper.Reset()
+			accepted := false
+			_, _ = Guard(func() {
+				configuration.InitConfig(cfgPath)
+				if err := viper.ReadInConfig(); err != nil {
+					return
+				}
+				configuration.LoadConfig()
+				accepted = configuration.Validate(cfgPath) == nil
+			})
+			ctx.Eval(1)
+			if accepted {
+				ctx.Violation("accepted-but-duplicate-"+kind+"-id:listed", fmt.Sprintf("%s ids in this order: %v\n%s", kind, seq, text), map[string]interface{}{"yaml": text})
+				return
+			}
+			ctx.Nontrivial("duplicate-ids|" + kind + "|" + strings.Join(seq, ","))
+		}
+	}
+}
+
 func c11RunCase(ctx *Ctx, idx int, hostile bool) {
 	r := ctx.Rng
 	dir := ctx.Path(fmt.Sprintf("c11-%d", idx))
@@ -632,6 +700,9 @@ func firstLines(s string, n int) string {
 
 func init() {
 	register("C11", func(ctx *Ctx) {
+		if ctx.Batch == 0 {
+			c11DuplicateIds(ctx)
+		}
 		n := ctx.N(12000, 200000)
 		for i := 0; i < n; i++ {
 			c11RunCase(ctx, i, i%3 != 0)
